@@ -3,6 +3,7 @@
 -/
 import Lemmas.SplitWords
 import Lemmas.Break
+import Lemmas.BreakIdem
 namespace TW.C12
 
 /-! ### split points of the hyphen splitter -/
@@ -164,5 +165,16 @@ theorem break_words_lossless (cw : Char → Nat) (limit : Nat) (ws : List Word) 
 example : hyphenPoints (fun c => c.isAlphanum) "can-be-split".toList = [4, 7] := by decide
 example : (breakApart (fun _ => 1) 3 ⟨"Hello!".toList, [' ', ' '], [], 6⟩).map (·.word) =
     ["Hel".toList, "lo!".toList] := by decide
+
+/-- **force-breaking is idempotent**: `break_apart` leaves each of its own pieces alone (the run
+    that produced a piece made no cut inside it, and a fresh run replays the same states), hence
+    `break_words (break_words ws) = break_words ws` for every limit -/
+-- @audit TW.C12.break_apart_idempotent
+theorem break_apart_idempotent (cw : Char → Nat) (limit : Nat) (w : Word) :
+    ∀ p ∈ breakApart cw limit w, breakApart cw limit p = [p] := breakApart_idem cw limit w
+
+-- @audit TW.C12.break_words_idempotent
+theorem break_words_idempotent (cw : Char → Nat) (limit : Nat) (ws : List Word) :
+    breakWords cw limit (breakWords cw limit ws) = breakWords cw limit ws := breakWords_idem cw limit ws
 
 end TW.C12
